@@ -405,9 +405,17 @@ pub fn execute(sc: &Scenario, grammars: &[Grammar], verbose: bool) -> Report {
 
 /// I4 / I5 over the new result and every live result of the same type from the same input object.
 fn check_pairs(new: &LiveRec, id: usize, live: &BTreeMap<usize, LiveRec>, violations: &mut Vec<serde_json::Value>, probes: &mut Probes) {
+    // results of very large inputs have renderings of megabytes: they are compared with at most two partners
+    let mut big_budget = 2usize;
     for (oid, other) in live.iter() {
         if other.tkey != new.tkey || other.slot != new.slot || other.gen != new.gen {
             continue;
+        }
+        if new.dbg.len() > 100_000 || other.dbg.len() > 100_000 {
+            if big_budget == 0 {
+                continue;
+            }
+            big_budget -= 1;
         }
         probes.pairs_compared += 1;
         let e1 = new.res.eq_dyn(other.res.as_ref());
